@@ -1191,7 +1191,7 @@ def c15_combine(R):
         "vars_count no longer counts the variables of self and of every other solver",
         construct="ModelCacheMixin.combine vars_count",
     )
-    sp2 = tree.func(MC, "ModelCacheMixin.split")
+    sp2 = tree.func_inlined(MC, "ModelCacheMixin.split")
     R.check(
         # every model that reaches a part is filtered to the part's variables (whether it replaces or is added to - see
         # C15.parts - what the part holds)
